@@ -1708,8 +1708,11 @@ impl SysComp {
                     }
                     let target = before.len() + expected.len();
                     let rx = &w._packet_rx;
+                    // once datagrams have gone missing a few times in this process the long wait buys nothing more: a
+                    // change that loses them would otherwise cost ~3 s per op and the check would not end in time
+                    let rounds = if RX_LOST.load(std::sync::atomic::Ordering::Relaxed) >= 3 { 120 } else { 3000 };
                     self.rt.block_on(async {
-                        for round in 0..3000 {
+                        for round in 0..rounds {
                             if rx.len() >= target && round >= 2 {
                                 break;
                             }
@@ -1735,6 +1738,7 @@ impl SysComp {
                 let n = got.iter().filter(|g| **g == e).count();
                 let m = expected.iter().filter(|x| *x == e).count();
                 if n < m {
+                    RX_LOST.fetch_add(1, std::sync::atomic::Ordering::Relaxed);
                     mon.fail("C09", "rx-datagram-not-delivered", format!("a datagram of {} bytes sent to the current socket of uplink {cid} did not reach the packet channel ({n} of {m} copies; bounded wait of ~3 s)", e.len()));
                     break;
                 }
@@ -2341,6 +2345,9 @@ impl SysComp {
         format!("wire=[{}] client=[{}] err=0 | {}", ws.join(","), cs.join(","), w.show())
     }
 }
+
+/// how many times op `rxpush` has seen a datagram NOT reach the packet channel in this process
+static RX_LOST: std::sync::atomic::AtomicUsize = std::sync::atomic::AtomicUsize::new(0);
 
 thread_local! {
     static SEED: std::cell::Cell<u64> = const { std::cell::Cell::new(0) };
